@@ -65,8 +65,16 @@ BUFFERS = [memoryview(b'ab\xce\xce'), memoryview(bytearray(b'ab\xce\xce')),
            memoryview(bytes(range(48))).cast('I', shape=[3, 4]),
            memoryview(bytearray(b'ab\xce\xce' * 6)).cast('H', shape=[2, 3, 2]),
            memoryview(b'x').cast('B', shape=[1, 1])]
+import fractions
+import types
+# wrong-typed values that compare EQUAL to a default, zero or empty value of
+# the right type (a shortcut taken on == lets them through)
+EQUAL_TO_DEFAULTS = [0.0, -0.0, D('0'), D('0.0'), D('-0'), fractions.Fraction(0),
+                     0j, 1.0, D('1.0'), fractions.Fraction(1), 1 + 0j, 255.0,
+                     D('65535'), types.MappingProxyType({}), frozenset(),
+                     range(0), b'', bytearray(), False, 0]
 WRONG = [None, b'bytes', 5, 1.5, [], {}, (), True, 'str', object,
-         bytearray(b'x'), D('1')] + BUFFERS
+         bytearray(b'x'), D('1')] + EQUAL_TO_DEFAULTS + BUFFERS
 STRINGS = ['', 'a', 'a' * 255, 'a' * 256, 'é' * 127 + 'a', 'é' * 128,
            '\x00', '\ud800', 'a' * 65536, '\U0001F600' * 64]
 LONGSTRINGS = STRINGS + ['a' * 70000]
